@@ -10,18 +10,16 @@ import collections, hashlib, json, os, re, sys
 import fw
 
 # Findings of the unchanged tree that are recorded rather than repaired would be listed here as exact signatures
-# (oracle name + case label pattern); a listed signature is reported as KNOWN-FINDING and not counted.
-# All OVMB findings reported so far (D1, D5, D6, make_decoder, decode_n, string length, add_face/add_cell failures, handle
-# encoding None) were FIXED in /repo (commits df0f5cb 7845203 4187fd9 7965d94 89ba81d 7f4bba7): nothing is suppressed for them.
-# The entries below are open observations reported to the integrator and awaiting a decision (fix: or KNOWN_FINDINGS).
+# (property, oracle name, regex on the case label, text); a listed signature is reported as KNOWN-FINDING and not counted.
+# All OVMB findings reported so far were FIXED in /repo and nothing is suppressed for them:
+#   batch 1: D1 missing return after "No EOF chunk" (df0f5cb), D6 read_edges span.first/handle_offset (7845203), ignored
+#            add_face/add_cell failures (4187fd9), handle encoding None (7965d94), unchecked Decoder primitives = D5, decode_n,
+#            string length word (89ba81d), make_decoder ignoring a failed stream read (7f4bba7)
+#   batch 2: WriteBuffer operator[] one past the end for empty strings (b526d1c), uniform valence 0 written in the fixed form
+#            (b6a70e8), variable-valence form rejected in tet/hex files (9ec0eb3), vertices not covered by VERT spans
+#            (d50992f), data after the EOF chunk (7dfc66e), compression != 0 ignored (fe559de)
+# Their replays are corpus cases (corpus_cases below) that run first in every check.
 KNOWN_SIGNATURES = [
-    # (property, oracle, regex on the case label, text)
-    ("C18", "framing_rejected", r"(^|:)(eof@\d+|eofswap\d+|eof_then_optional)$", "EOF chunk not last: chunks after the EOF chunk are still processed and the file reads Ok"),
-    ("C18", "framing_rejected", r"\.compression=\d+$", "chunk header field `compression` != 0 is ignored (description: must always be 0)"),
-    ("C18", "framing_rejected", r"hdr\.nv=\d+$|(^|:)drop\d+VERT$|VERT\.count=\d+$", "vertex spans that do not cover all n_verts vertices are accepted (n_verts_read_ is never compared with n_verts)"),
-    ("C06", "roundtrip", r"allzero_valence_cells", "all cells of valence 0 are written as fixed valence 0 / encoding None, which the reader rejects"),
-    ("C06", "no_crash_no_hang", r":emptystr_default$", "ovmb_write aborts (operator[] one past the end in WriteBuffer::write, n = 0) when a std::string property has the empty string as default"),
-    ("C06", "reencoding_same_mesh", r"^reenc:[^:]*(tet|hex)[^:]*:variable", "tetrahedral / hexahedral files in the variable-valence form (permitted by the description) are rejected with ErrorInvalidTopoType"),
 ]
 
 ENV = {"ASAN_OPTIONS": "detect_leaks=0:allocator_may_return_null=1", "UBSAN_OPTIONS": "halt_on_error=1"}
@@ -243,6 +241,15 @@ def corpus_cases(cases):
     cases.add("corpus:henc_none_faces_tetmesh", g2, mesh="tet", expect="reject")
     v1 = S({"hdr": hdr(nv=1), "chunks": [vert(0, 1, one), eof()]})
     for k in (64, 80, 88, 104, 119): cases.add("corpus:stream_fault_v1@%d" % k, v1, fault="read@%d" % k, expect="reject")
+    # batch 2
+    cases.add("corpus:eof_not_last", S({"hdr": hdr(nv=1), "chunks": [eof(), vert(0, 1)]}), expect="reject")
+    cases.add("corpus:optional_chunk_after_eof", S({"hdr": hdr(), "chunks": [eof()]}) + b"\0" * 16, expect="reject")
+    cases.add("corpus:compression_nonzero", S({"hdr": hdr(), "chunks": [ch({"type": b"EOF ", "body": b"", "compression": 9})]}), expect="reject")
+    cases.add("corpus:vertices_not_covered", S({"hdr": hdr(nv=2), "chunks": [vert(0, 1), eof()]}), expect="reject")
+    cases.add("corpus:vert_chunk_dropped", S({"hdr": hdr(nv=2), "chunks": [eof()]}), expect="reject")
+    tb = cases.add("corpus:tet_fixed_base", S({"hdr": hdr(nv=3, ne=3, nf=1, topo=1), "chunks": [vert(0, 3), topo(1, 0, 3, 2, 1, [0, 1, 1, 2, 2, 0]), topo(2, 0, 1, 3, 1, [0, 2, 4]), eof()]}))
+    vt = ch({"type": b"TOPO", "first": 0, "count": 1, "entity": 2, "valence": 0, "venc": 1, "henc": 1, "offset": 0, "valences": [3], "handles": [0, 2, 4]})
+    cases.add("corpus:tet_variable_valence", S({"hdr": hdr(nv=3, ne=3, nf=1, topo=1), "chunks": [vert(0, 3), topo(1, 0, 3, 2, 1, [0, 1, 1, 2, 2, 0]), vt, eof()]}), expect="same", base=tb)
     # D6: split edge chunks / handle_offset on edges must read the right mesh (checked against the unsplit file)
     base = cases.add("corpus:D6_base", S({"hdr": hdr(nv=4, ne=2), "chunks": [vert(0, 4), topo(1, 0, 2, 2, 1, [1, 2, 2, 3]), eof()]}))
     cases.add("corpus:D6_split", S({"hdr": hdr(nv=4, ne=2), "chunks": [vert(0, 4), topo(1, 0, 1, 2, 1, [1, 2]), topo(1, 1, 1, 2, 1, [2, 3]), eof()]}), expect="same", base=base)
